@@ -696,3 +696,84 @@ func runU5(c *core.Ctx) {
 		c.OK("ast/search-targets", token.NoPos, "no loop in package ast compares a running counter with a variable it also assigns")
 	}
 }
+
+// U7: a single-slot store never replaces a chunk. linkedNodes / linkedPairs keep their
+// elements in 16-slot chunks that are allocated on demand. A method that stores one element
+// (index and value parameters) may allocate the chunk only when its table entry is nil;
+// allocating on any other condition (first slot of the chunk, ...) throws away the other
+// fifteen elements when the store is an overwrite (Unset clears a pair through set()).
+
+func init() {
+	register(&core.Rule{ID: "U7", Min: 2, Arm64: true,
+		Doc: "Chunk allocation in single-slot stores of ast.linkedNodes / ast.linkedPairs (methods with an int index parameter and an element parameter): every `new(nodeChunk)` / `new(pairChunk)` stored into the tail table stands in the body of an if statement whose condition tests that same table entry against nil.",
+		Run: runU7})
+}
+
+func runU7(c *core.Ctx) {
+	p := c.Prog
+	pk := p.Pkg("ast")
+	n := 0
+	for _, fd := range core.FuncDecls(pk) {
+		rn := core.RecvName(fd)
+		if fd.Body == nil || (rn != "linkedNodes" && rn != "linkedPairs") {
+			continue
+		}
+		// index + element parameters
+		hasIdx, hasElem := false, false
+		for _, fl := range fd.Type.Params.List {
+			t := exprStr(fl.Type)
+			if t == "int" {
+				hasIdx = true
+			}
+			if t == "Node" || t == "Pair" {
+				hasElem = true
+			}
+		}
+		if !hasIdx || !hasElem {
+			continue
+		}
+		fn := core.FuncName(pk, fd)
+		var stack []ast.Node
+		k := 0
+		ast.Inspect(fd.Body, func(nd ast.Node) bool {
+			if nd == nil {
+				stack = stack[:len(stack)-1]
+				return true
+			}
+			stack = append(stack, nd)
+			as, ok := nd.(*ast.AssignStmt)
+			if !ok || len(as.Lhs) != 1 || len(as.Rhs) != 1 {
+				return true
+			}
+			call, ok := ast.Unparen(as.Rhs[0]).(*ast.CallExpr)
+			if !ok || exprStr(call.Fun) != "new" || len(call.Args) != 1 {
+				return true
+			}
+			if t := exprStr(call.Args[0]); t != "nodeChunk" && t != "pairChunk" {
+				return true
+			}
+			k++
+			n++
+			c.Analysed(fn)
+			cn := fn + "/chunk-alloc#" + itoa(k)
+			lhs := exprStr(as.Lhs[0])
+			guarded := false
+			for i := len(stack) - 2; i >= 0; i-- {
+				if is, ok := stack[i].(*ast.IfStmt); ok {
+					if be, ok := ast.Unparen(is.Cond).(*ast.BinaryExpr); ok && be.Op == token.EQL && exprStr(be.Y) == "nil" && exprStr(be.X) == lhs {
+						guarded = true
+					}
+				}
+			}
+			if guarded {
+				c.OK(cn, as.Pos(), "the chunk is allocated only when %s is nil", lhs)
+			} else {
+				c.Bad(cn, as.Pos(), "a fresh chunk is stored into %s without testing that entry for nil: when the slot being written lies in an existing chunk (an overwrite, e.g. Unset clearing a pair at slot 16), the other elements of that chunk are thrown away while the length changes by one", lhs)
+			}
+			return true
+		})
+	}
+	if n == 0 {
+		c.Undecided("ast/chunk-alloc", token.NoPos, "no chunk allocation in a single-slot store found")
+	}
+}
